@@ -15,7 +15,7 @@ ID = "C13"
 RULE = (
     "strictly convex spherical faces with 3-8 corners and edges < 90 deg built by construction (corners on a small circle "
     "or convex hull in the gnomonic chart; planted: centre at a pole, near a pole, on the antimeridian / prime meridian / "
-    "equator; wide faces whose lowest corner starts a poleward-bulging edge; faces with a corner exactly at a pole), every "
+    "equator; wide faces whose lowest corner starts a poleward-bulging edge; faces with a corner exactly at a pole; wide faces around a pole reaching or crossing the equator, edges up to 150 deg), corners listed counter-clockwise or (a third of the single faces) clockwise, every "
     "traversal start, alone or as the faces of a generated hull/lat-lon mesh (mixed sizes with padding). Oracle: corners, "
     "64 slerp samples and the analytic apex of every edge must lie in the reported box (2e-8 rad, twice the library's ERROR_TOLERANCE); latitude bounds must be "
     "attained (1e-7 rad); the longitude interval must be the shortest cover of the corner longitudes (longitude is monotone "
@@ -98,8 +98,46 @@ def _pole_corner_face(draw):
 
 
 @st.composite
+def _polar_wide_face(draw):
+    """A wide face around a pole: 3-6 corners at drawn latitudes between -25 and 70 degrees (so the face may reach or
+    cross the equator), longitudes 60-140 degrees apart.  By construction: if the drawn corners are not strictly convex
+    the southern ones are mirrored north, and failing that a regular polygon on the parallel of 20 degrees is used."""
+    north = draw(st.booleans())
+    n = draw(st.integers(3, 6))
+    lon0 = draw(sampled_from([0.0, -180.0, 33.0]) | st.floats(-180, 180))
+    gaps = [draw(st.floats(0.6, 1.4)) for _ in range(n)]
+    tot = sum(gaps)
+    lons, acc = [], 0.0
+    for gp in gaps:
+        lons.append(lon0 + 360.0 * acc / tot)
+        acc += gp
+    lats = [draw(st.floats(-25.0, 70.0)) for _ in range(n)]
+    for attempt in (lats, [abs(x) + 5.0 for x in lats], [20.0] * n):
+        pts = [(((lo + 180.0) % 360.0) - 180.0, la) for lo, la in zip(lons, attempt)]
+        vs = [S.ll2xyz(*p) for p in pts]
+        if S.is_strictly_convex(vs, 1e-6) and max(S.angle(vs[i], vs[(i + 1) % n]) for i in range(n)) < math.radians(150):
+            break
+    else:
+        pts = [(((lon0 + 360.0 * k / n + 180.0) % 360.0) - 180.0, 20.0) for k in range(n)]
+    if not north:
+        pts = [(p[0], -p[1]) for p in reversed(pts)]
+    start = draw(st.integers(0, len(pts) - 1))
+    pts = pts[start:] + pts[:start]
+    return {"lonlat": [[float(a), float(b)] for a, b in pts], "how": "polar-wide-" + ("n" if north else "s"), "shape": "polar-wide"}
+
+
+@st.composite
 def _case(draw, tier):
-    mode = draw(sampled_from(["face", "face", "face", "bulge", "bulge", "pole-corner", "mesh"]))
+    c = draw(_case0(tier))
+    if c["mode"] != "mesh":
+        # the corners may be listed in either orientation (the bounds of a face do not depend on it)
+        c["clockwise"] = draw(sampled_from([False, False, True]))
+    return c
+
+
+@st.composite
+def _case0(draw, tier):
+    mode = draw(sampled_from(["face", "face", "face", "bulge", "bulge", "pole-corner", "polar-wide", "mesh"]))
     if mode == "mesh":
         big = tier != "quick"
         k = draw(sampled_from(["hull", "hull", "latlon"]))
@@ -113,6 +151,8 @@ def _case(draw, tier):
         face = draw(_bulge_face())
     elif mode == "pole-corner":
         face = draw(_pole_corner_face())
+    elif mode == "polar-wide":
+        face = draw(_polar_wide_face())
     if face is None:
         face = draw(facegen.convex_face(max_class=3, tiny=True))
         mode = "face"
@@ -298,7 +338,7 @@ def _site(case):
         r = ":float32-coordinates"
     if case["mode"] == "mesh":
         return "mesh" + r
-    return case["mode"] + r
+    return case["mode"] + r + (":clockwise" if case.get("clockwise") else "")
 
 
 def classify(case):
@@ -310,6 +350,8 @@ def classify(case):
     f = case["face"]
     vs = facegen.face_vectors(f)
     labs = ["mode:" + case["mode"], "cartesian-radius:" + str(case.get("radius")), f"corners:{len(vs)}", "how:" + f.get("how", "?"), "size:" + facegen.size_class(vs)]
+    if case.get("clockwise"):
+        labs.append("listed-clockwise")
     if case.get("shifted_off_lon0"):
         labs.append("excluded-by-known:corner-on-lon0->rotated")
     exp = analyse_face(vs)
@@ -318,6 +360,8 @@ def classify(case):
         if exp["pole_inside"]:
             labs.append("pole-inside")
             nontrivial = True
+            if not (all(v[2] > 0 for v in vs) or all(v[2] < 0 for v in vs)):
+                labs.append("pole-inside-and-reaches-the-equator")
         if exp["pole_corner"]:
             labs.append("pole-corner")
         lat_c = [math.asin(max(-1, min(1, v[2]))) for v in vs]
@@ -370,7 +414,7 @@ def run_case(case, ctx):
             judge_face(vs, b[fi], _site(case), ctx, fails, label=f"face {fi} {[mesh['nodes'][i] for i in f]}", **tol)
         return fails
     face = case["face"]
-    mesh = {"nodes": face["lonlat"], "faces": [list(range(len(face["lonlat"])))]}
+    mesh = {"nodes": face["lonlat"], "faces": [list(range(len(face["lonlat"])))[:: -1 if case.get("clockwise") else 1]]}
     g = build.grid_from_mesh(mesh, **(build.cartesian_kw(mesh, case["radius"]) if case.get("radius") else {}), **({"coord_dtype": "float32"} if f32 else {}))
     b = np.asarray(g.bounds.values, float)
     if b.shape != (1, 2, 2):
